@@ -47,6 +47,15 @@ def valueEmpty : Value → Bool
   | .bool b => !b
   | .bytes b => b.isEmpty
 
+/-- the float elements compare their value with 0, and Go's `-0.0 == 0` holds: the value whose bits
+    are only the sign bit is empty too -/
+def negZero : DataType → Value → Bool
+  | .float32, .num n => n == 2147483648
+  | .float64, .num n => n == 9223372036854775808
+  | _, _ => false
+
+def elemEmpty (e : Elem) : Bool := valueEmpty e.2 || negZero e.1.ty e.2
+
 structure Rec where
   isTemplate : Bool
   tid : Nat
@@ -89,7 +98,7 @@ def addElemData (acc : Option (List Elem × Bytes)) (e : Elem) : Option (List El
 
 def addElemTemplate (acc : Option (List Elem × Bytes)) (e : Elem) : Option (List Elem × Bytes) :=
   match acc with
-  | some (es, bs) => if valueEmpty e.2 then some (es ++ [e], bs ++ fieldSpec e.1) else none
+  | some (es, bs) => if elemEmpty e then some (es ++ [e], bs ++ fieldSpec e.1) else none
   | none => none
 
 /-- AddRecord / AddRecordWithExtraElements (the spare capacity does not show) -/
